@@ -38,6 +38,7 @@ const (
 	KMakeSlice      // make([]T, len)
 	KNil
 	KUnknown
+	KStructLit // a struct value built field by field in a local (composite literal) and loaded whole; fields resolve on demand
 )
 
 // O is an origin expression.
@@ -56,6 +57,9 @@ type O struct {
 	Args   []*O           // operands: KField/KElem/KConv/KUn: [X]; KElem: [X, idx]; KBin: [X,Y]; KCall: args; KPhi: alternatives
 	Val    ssa.Value      // the SSA value this node was built from (identity for KAlloc/KUnknown/KRange*)
 	Ctx    string         // context id for KAlloc / loop-instance identity
+	Lit    *ssa.Alloc     // KStructLit: the local the literal was built in
+	LitAt  ssa.Instruction // KStructLit: the whole-value load
+	LitFr  *Frame         // KStructLit: the frame it was built in
 }
 
 func (o *O) String() string {
@@ -127,6 +131,8 @@ func (o *O) String() string {
 		return "phi{" + strings.Join(a, " | ") + "}"
 	case KUnknown:
 		return "?" + o.Name
+	case KStructLit:
+		return "lit:" + o.Name
 	}
 	return "?"
 }
@@ -270,7 +276,16 @@ func (r *Resolver) of(v ssa.Value, fr *Frame, at ssa.Instruction) *O {
 		return &O{Kind: KUn, Op: x.Op, Type: x.Type(), Args: []*O{r.Of(x.X, fr, at)}, Val: v}
 	case *ssa.Field:
 		st := x.X.Type().Underlying().(*types.Struct)
-		return &O{Kind: KField, Field: st.Field(x.Field), Type: x.Type(), Args: []*O{r.Of(x.X, fr, at)}, Val: v}
+		base := r.Of(x.X, fr, at)
+		if base.Kind == KStructLit && base.Lit != nil {
+			// the field of a literal built in a local (possibly in a caller and handed down by value): the store that
+			// reaches the whole-value load, resolved where the literal was built
+			if o := r.reaching(base.Lit, []int{x.Field}, base.LitAt, base.LitFr); o != nil {
+				return o
+			}
+			return unknown(v, "ambiguous-store:"+base.Lit.Comment+"."+st.Field(x.Field).Name())
+		}
+		return &O{Kind: KField, Field: st.Field(x.Field), Type: x.Type(), Args: []*O{base}, Val: v}
 	case *ssa.Index:
 		return &O{Kind: KElem, Type: x.Type(), Args: []*O{r.Of(x.X, fr, at), r.Of(x.Index, fr, at)}, Val: v}
 	case *ssa.Lookup:
@@ -483,6 +498,23 @@ func (r *Resolver) load(ld *ssa.UnOp, fr *Frame) *O {
 	case *ssa.Alloc:
 		if o := r.reaching(a, nil, ld, fr); o != nil {
 			return o
+		}
+		if _, isStruct := a.Type().Underlying().(*types.Pointer).Elem().Underlying().(*types.Struct); isStruct {
+			if recs, escapes := storesOf(a); !escapes && len(recs) > 0 {
+				fieldsOnly := true
+				for _, rc := range recs {
+					if rc.field < 0 {
+						fieldsOnly = false
+					}
+				}
+				if fieldsOnly {
+					id := ""
+					if fr != nil {
+						id = fr.ID
+					}
+					return &O{Kind: KStructLit, Type: ld.Type(), Val: ld, Name: a.Comment + "@" + a.Parent().Name() + "/" + id + "/" + ld.Name(), Lit: a, LitAt: ld, LitFr: fr}
+				}
+			}
 		}
 		return unknown(ld, "ambiguous-store:"+a.Comment)
 	}
@@ -724,6 +756,13 @@ func (r *Resolver) reaching(al *ssa.Alloc, path []int, ld ssa.Instruction, fr *F
 	}
 	o := r.Of(best.st.Val, fr, best.st)
 	if len(path) == 1 && best.field == -1 {
+		if o.Kind == KStructLit && o.Lit != nil {
+			// the whole value is a literal built elsewhere (a struct handed down by value and spilled here)
+			if fo := r.reaching(o.Lit, path, o.LitAt, o.LitFr); fo != nil {
+				return fo
+			}
+			return nil
+		}
 		st := al.Type().Underlying().(*types.Pointer).Elem().Underlying().(*types.Struct)
 		return &O{Kind: KField, Field: st.Field(path[0]), Type: st.Field(path[0]).Type(), Args: []*O{o}, Val: ld.(ssa.Value)}
 	}
